@@ -708,3 +708,27 @@ def _batch_new(sl="arr[: n_batches * batch_size]"):
 
 silent("c15-benign-batch-layout-hoisted-out-of-helper", "C15", _TU, _BATCH_OLD, _batch_new())
 fire("c15-hoisted-batch-layout-keeps-the-tail", "C15", _TU, _BATCH_OLD, _batch_new("arr[-n_batches * batch_size :]"), "C15.batch")
+
+# ------------------------------------------------------------------------------ factory forwarding (tidy-up operator sweep)
+fire("c03-coupling-flow-drops-cond-dim", "C03", "flowjax/flows.py",
+     "            dim=dim,\n            cond_dim=cond_dim,\n            nn_width=nn_width,\n            nn_depth=nn_depth,\n            nn_activation=nn_activation,\n        )\n        return _add_default_permute(bijection, dim, perm_key)\n\n    keys = jr.split(key, flow_layers)\n    layers = eqx.filter_vmap(make_layer)(keys)\n    bijection = Invert(Scan(layers)) if invert else Scan(layers)\n    return Transformed(base_dist, bijection)\n\n\ndef masked",
+     "            dim=dim,\n            nn_width=nn_width,\n            nn_depth=nn_depth,\n            nn_activation=nn_activation,\n        )\n        return _add_default_permute(bijection, dim, perm_key)\n\n    keys = jr.split(key, flow_layers)\n    layers = eqx.filter_vmap(make_layer)(keys)\n    bijection = Invert(Scan(layers)) if invert else Scan(layers)\n    return Transformed(base_dist, bijection)\n\n\ndef masked",
+     "C03.factory-cond")
+fire("c03-triangular-spline-flow-condition-branch-inverted", "C03", "flowjax/flows.py",
+     "        if cond_dim is not None:\n            linear_condition", "        if cond_dim is None:\n            linear_condition",
+     "C03.factory-cond")
+silent("c03-benign-triangular-spline-flow-cond-truthiness", "C03", "flowjax/flows.py",
+       "        if cond_dim is not None:\n            linear_condition", "        if cond_dim:\n            linear_condition")
+fire("c01-bnaf-flow-drops-configured-inverter", "C01", "flowjax/flows.py",
+     "            inverter=inverter,\n", "", "C01.factory-inverter")
+fire("c01-bnaf-always-default-inverter", "C01", B + "block_autoregressive_network.py",
+     "            AutoregressiveBisectionInverter() if inverter is None else inverter",
+     "            AutoregressiveBisectionInverter() if inverter is not None else inverter", "C01.factory-inverter")
+fire("c10-adaptation-state-in-callers-dtype", "C10", "flowjax/bisection_search.py",
+     "    lower, upper = jnp.asarray(lower, float), jnp.asarray(upper, float)\n",
+     "    lower, upper = jnp.asarray(lower), jnp.asarray(upper)\n", "C10.adapt")
+silent("c10-benign-adaptation-float-cast-by-keyword", "C10", "flowjax/bisection_search.py",
+       "    lower, upper = jnp.asarray(lower, float), jnp.asarray(upper, float)\n",
+       "    lower = jnp.asarray(lower, dtype=float)\n    upper = jnp.asarray(upper, dtype=float)\n")
+fire("c14-arraylike-to-array-ignores-its-keywords", ["C14", "C03", "C05"], "flowjax/utils.py",
+     "    return jnp.asarray(arr, **kwargs)", "    return jnp.asarray(arr)", ".cast")
